@@ -1691,7 +1691,7 @@ Definition srcfin (s : st) (add : list out) : Prop :=
     (exists x, In x (slots s) /\ active x = true /\ s_chan x = ch /\ g_t0 x = t0) \/ now s <= t0.
 Definition finsrc (s s' : st) : Prop := exists add, outs s' = add ++ outs s /\ srcfin s add.
 Lemma finsrc_refl s : finsrc s s.
-Proof. exists []. split; auto. intros * H. contradiction. Qed.
+Proof. exists []. split; auto. intros tcb ch tg t0 dur u0 u H. contradiction. Qed.
 Lemma finsrc_noghost s s' add : outs s' = add ++ outs s -> Forall noghost add -> finsrc s s'.
 Proof.
   intros E F. exists add. split; auto. intros tcb ch tg t0 dur u0 u H. rewrite Forall_forall in F. apply F in H. contradiction.
@@ -1701,7 +1701,7 @@ Proof. intros []. destruct pa_outs0 as (add & E & F). eapply finsrc_noghost; eau
 Lemma finsrc_trans P s s1 s2 : now s <= now s1 -> evo P s s1 -> finsrc s s1 -> finsrc s1 s2 -> finsrc s s2.
 Proof.
   intros Hn E (a1 & O1 & S1) (a2 & O2 & S2). exists (a2 ++ a1). split; [rewrite O2, O1, app_assoc; reflexivity|].
-  intros * H. apply in_app_or in H. destruct H as [H|H]; [|eapply S1; eauto].
+  intros tcb ch tg t0 dur u0 u H. apply in_app_or in H. destruct H as [H|H]; [|eapply S1; eauto].
   destruct (S2 _ _ _ _ _ _ _ H) as [(x & Hx & Ax & Ec & Et)|Hl]; [|right; lia].
   destruct (E x Hx Ax) as [(x0 & Hx0 & Ax0 & (I1 & I2 & _) & _)|[A _]].
   - left. exists x0. repeat split; auto; congruence.
@@ -1736,12 +1736,13 @@ Proof.
     + specialize (Jq He x Hx Ax). lia.
     + destruct (TT' y Hy Ay) as (On & _). rewrite Et in On. specialize (Jd On).
       destruct (i_ok _ I' y Hy Ay) as [_ _ _ _ _ _ (T1' & T2' & T3')]. lia.
-  - intros He * H. rewrite Eo in H. apply in_ghost_app in H; auto. eapply Jo; eauto.
+  - intros He tcb ch tg t0 dur u0 u H. rewrite Eo in H. apply in_ghost_app in H; auto. eapply Jo; eauto.
 Qed.
 Lemma J_passive e S s s' : passive s s' -> Good s -> J e S s -> J e S s'.
 Proof.
   intros P G Jj. pose proof (Good_passive _ _ P G) as G'.
-  eapply (J_keep e S (fun _ => False)); eauto; try apply P; try apply G'. apply evo_passive; auto.
+  apply (J_keep e S (fun _ => False) s s'); auto.
+  - apply P. - apply P. - apply evo_passive; auto. - apply G'. - apply G'. - apply P.
 Qed.
 
 (* the arithmetic of the adaptive period: a slot with L ms left, evaluated again within period + slack *)
@@ -1749,5 +1750,5 @@ Lemma period_arith dur L : 1 <= L -> (dur - L + 1) * 1000 + clampd L * 1000 <= d
 Proof.
   intros HL. destruct consts_ok. destruct (Z_lt_ge_dec L (CD_MIN * CD_DIV)) as [Hs|Hb].
   - rewrite clampd_small by auto. nia.
-  - pose proof (clampd_large L Hb). pose proof (clampd_range L). nia.
+  - pose proof (clampd_large L ltac:(lia)). pose proof (clampd_range L). nia.
 Qed.
